@@ -230,3 +230,16 @@ Definition cs_cleanup (op : cs_op) : list cs_step :=
   end.
 
 Definition cs_exec_op (op : cs_op) (m : cs_m) : cs_m := cs_run (cs_steps op m) m.
+
+(* ---- what the caller is told ---- *)
+(* A fault at step k (k < length l) makes the operation return an error PROVIDED wrapTx hands the error of COMMIT back
+   whatever it is ([f_commit]: Gen/FactsStartup.v commit_error_always_returned) and, for applyMessagesCreated, the loop
+   that deletes the new cache files does not overwrite the transaction's error ([f_cleanup]:
+   conn_create_cleanup_keeps_error).  k >= length l: no fault, success. *)
+Definition cs_reports_error (f_commit f_cleanup : bool) (op : cs_op) (l : list cs_step) (k : nat) : bool :=
+  if Nat.leb (length l) k then false
+  else match nth_error l k with Some SCommit => f_commit | _ => true end
+       && match op with OpConnCreate _ _ => f_cleanup | _ => true end.
+
+Definition cs_outcome (k : nat) (l cleanup : list cs_step) (m : cs_m) : cs_m :=
+  if Nat.leb (length l) k then cs_run l m else cs_fail_at k l cleanup m.
